@@ -75,7 +75,7 @@ def run(data):
                     for start in (u_.quantify(), Quantity(1, u_).unprefixed(), 1 * u_):
                         bal = start
                         half = Quantity(bal.magnitude / 2, bal.unit)
-                        bal -= half; bal -= half; bal += half; bal *= 3
+                        bal += half; bal -= half; bal -= half; bal -= half; bal *= 3; bal /= 3          # ... and the balance ends at nothing
                 except Exception:  # noqa
                     pass
     res = []
